@@ -40,4 +40,19 @@ def pendingCommands : TrapMap → List (Nat × Nat)
     | .command c => if k ≠ 0 ∧ g.current.pending = true then (k, c) :: pendingCommands t else pendingCommands t
     | _ => pendingCommands t
 
+/-- "ignored on entry" as `set_action` sees it: no override, and the signal is still vacant with
+    `Ignore` installed, or its entry still says `{Ignore, Inherited}` -/
+def refused (st : State) (c : Nat) (overrideIgnore : Bool) : Bool :=
+  !overrideIgnore &&
+  match get st.traps c with
+  | none => c != 0 && st.sys.disp c == .ignore
+  | some g => g.current.action == .ignore && g.current.origin == .inherited
+
+/-- what one `trap ACTION COND…` command must leave for a listed condition (other than KILL and STOP,
+    which make the command fail): ignored on entry → still `{Ignore, Inherited}`; every other
+    condition → the action, with the command as its origin, wherever it stands in the list -/
+def trapCommandExpect (st : State) (c : Nat) (a : Action) (origin : Nat) (overrideIgnore : Bool)
+    : Action × Origin :=
+  if refused st c overrideIgnore then (.ignore, .inherited) else (a, .user origin)
+
 end YashModel.Trap
